@@ -287,3 +287,91 @@ Example C13_stats_example : exists M, ANOVA OQc exI exy 1 = Ok M /\
 Proof. exact ex_stats. Qed.
 Example C13_pairs_example : pairs 4 = [(0, 1); (0, 2); (0, 3); (1, 2); (1, 3); (2, 3)] /\ pair_num_nat 4 1 3 = 4.
 Proof. split; reflexivity. Qed.
+
+(* ====================================================================================================================
+   At the reals (carrier OR of Proofs/StabRP.v): numeric bounds.
+   ==================================================================================================================== *)
+From Coq Require Import Reals.
+From TV Require Import Model.Transformation Model.Svd Model.ActMany Proofs.StabRP Proofs.TransformationP Proofs.OrthP Proofs.FrobP
+  Proofs.TruncP4 Proofs.TruncP5 Proofs.AnovaNoiseRP Proofs.AnovaErrP.
+
+(* "up to the requested noise" (order 1, any noise level, any generator whose draws are bounded by gmax): with F a
+   bound of |f0| and of every |f1[k][x]|, the entry of the tensor differs from f0 + sum_k f1[k][x_k] by at most
+        |noise| * d * (r (1 + 2F + |noise| gmax))^(d-1) * r gmax
+   - a polynomial in |noise| without constant term; first-order coefficient d r gmax (r (1+2F))^(d-1).  All d >= 2,
+   r >= 2, mode sizes.  (Deterministic bound: the property's normal draws are unbounded, gmax is whatever the
+   generator returned.) *)
+Theorem C13_cores_1_noise_bound : forall (M : anova R) (r : nat) (g : nat -> nat -> nat -> nat -> R) (F gmax : R),
+  (0 <= F)%R -> (0 <= gmax)%R -> (Rabs (a_f0 M) <= F)%R ->
+  (forall k p, (Rabs (nth p (nth k (a_f1 M) []) 0%R) <= F)%R) ->
+  (forall c a i b, (Rabs (g c a i b) <= gmax)%R) ->
+  2 <= r -> 2 <= a_d M ->
+  forall (noise : R) (idx : list nat), length idx = a_d M ->
+  (forall k, k < a_d M -> nth k idx O < length (nth k (a_f1 M) [])) ->
+  (Rabs (get OR (cores_1 OR M r noise g) idx
+         - (a_f0 M + bsum OR (a_d M) (fun k => nth (nth k idx O) (nth k (a_f1 M) []) 0%R)))
+   <= Rabs noise * (INR (a_d M) * ((INR r * (1 + 2 * F + Rabs noise * gmax)) ^ (a_d M - 1) * (INR r * gmax))))%R.
+Proof. exact cores_1_noise_bound. Qed.
+(* non-vacuity: a model with d = 3, F = 2, draws equal to 1 (gmax = 1) and a multi-index meeting every hypothesis *)
+Example C13_noise_bound_example : 2 <= a_d exMR /\ (Rabs (a_f0 exMR) <= 2)%R /\
+  (forall k p, (Rabs (nth p (nth k (a_f1 exMR) []) 0%R) <= 2)%R) /\
+  (forall c a i b : nat, (Rabs ((fun _ _ _ _ => 1%R) c a i b) <= 1)%R) /\
+  length [0; 1; 1] = a_d exMR /\
+  (forall k, k < a_d exMR -> nth k [0; 1; 1] O < length (nth k (a_f1 exMR) [])).
+Proof. exact exMR_hyps. Qed.
+
+(* order 2 composed with property C02 (Proofs/TruncP5.v: the rounding inside add_many is the REAL model of
+   teneva.truncate, eigen-decomposition mode; only the LAPACK contracts qr / rq / eigh / argsort are assumed).
+   For fewer than 15 pairs (d <= 5) add_many rounds exactly once, with cap(0) = int(r).  The call succeeds, the result
+   has the observed mode sizes and a valid rank profile with every TT-rank <= max(1, int(r)), and when no rank reaches
+   the cap ("the requested rank is large enough") its Frobenius distance from the tensor
+   constant + univariate + pair terms (calc_pos) is at most e times the Frobenius norm of that tensor (e = 1e-10 in
+   the code).  What remains assumed about the pair terms: the skeleton routine is EXACT (U V = A, >= 1 column);
+   teneva.matrix_skeleton itself truncates at 1e-10, that error is not modelled.  More than 14 pairs (d >= 6):
+   C13_anova_order2_pre_partial. *)
+Theorem C13_anova_order2_error :
+  forall (svdo : nat -> nat -> mat R -> mat R * list R * mat R) (eigh : nat -> nat -> mat R -> list R * mat R)
+         (argsort : nat -> nat -> list R -> list nat) (qr rq : nat -> nat -> mat R -> mat R * mat R)
+         (ilog2 : nat -> nat -> R -> Z) (pow2frac : Z -> nat -> R),
+  (forall c k A, qr_ok OR A (fst (qr c k A)) (snd (qr c k A))) ->
+  (forall c k A, rq_ok OR A (fst (rq c k A)) (snd (rq c k A))) ->
+  (forall c k C, msym C -> eigh_ok C (fst (eigh c k C)) (snd (eigh c k C))) ->
+  (forall c k l, argsort_ok l (argsort c k l)) ->
+  forall skel : nat -> mat R -> mat R * mat R,
+  (forall num A, let (U, V) := skel num A in mc U = mr V /\ meq OR (mmul OR U V) A) ->
+  (forall num A, 1 <= mc (fst (skel num A))) ->
+  forall (I : list (list Z)) (y : list R) (M : anova R) (r : nat) g (e : R) (cap : nat -> Z),
+  ANOVA OR I y 2 = Ok M -> 2 <= r -> 2 <= dimI I -> length (pairs (dimI I)) < 15 -> (0 <= e)%R ->
+  exists W, cores OR M r 0%R false g skel (trunc_real svdo eigh argsort qr rq ilog2 pow2frac e cap) = Ok W /\
+    length W = dimI I /\ chain 1 W 1 /\ shape W = shapes (domain I) /\
+    (forall k, 1 <= k < dimI I ->
+       1 <= cr1 (nth k W dcore) /\ (Z.of_nat (cr1 (nth k W dcore)) <= Z.max 1 (cap O))%Z) /\
+    ((forall k, 1 <= k < dimI I -> (Z.of_nat (cr1 (nth k W dcore)) < cap O)%Z) ->
+     (msum OR (shapes (domain I)) (fun idx => sq OR (calc_pos OR M idx - get OR W idx))
+      <= e * e * msum OR (shapes (domain I)) (fun idx => sq OR (calc_pos OR M idx)))%R).
+Proof. exact anova_order2_error. Qed.
+Example C13_pairs_15 : length (pairs 5) = 10 /\ length (pairs 6) = 15.
+Proof. split; reflexivity. Qed.
+
+(* anova_func with the default rounding composed with C02_truncate_error (eigen-decomposition mode, cap 10^12): the
+   rounding succeeds, keeps d and the mode sizes n, and the returned coefficient tensor W is within e ||A||_F of the
+   unrounded tensor A = anova_func(e=None) whose entries and interpolant are C13_cores_pre_get / C13_anova_func_denote
+   (e = 1e-8 in the code; the side condition says there are fewer than 10^12 coefficients) *)
+Theorem C13_anova_func_error :
+  forall (svdo : nat -> mat R -> mat R * list R * mat R) (eigh : nat -> mat R -> list R * mat R)
+         (argsort : nat -> list R -> list nat) (qr rq : nat -> mat R -> mat R * mat R)
+         (ilog2 : nat -> R -> Z) (pow2frac : Z -> nat -> R),
+  (forall k A, qr_ok OR A (fst (qr k A)) (snd (qr k A))) ->
+  (forall k A, rq_ok OR A (fst (rq k A)) (snd (rq k A))) ->
+  (forall k A, svd_ok OR A (fst (fst (svdo k A))) (snd (fst (svdo k A))) (snd (svdo k A))) ->
+  (forall k C, msym C -> eigh_ok C (fst (eigh k C)) (snd (eigh k C))) ->
+  (forall k l, argsort_ok l (argsort k l)) ->
+  forall (X : list (list R)) (y : list R) (n : nat) (a b : list R) (lamb : R) solve (split : R -> R * R) (e : R),
+  2 <= dimX X -> 1 <= n -> (0 <= e)%R ->
+  let pre := anova_func OR X y n a b lamb solve split None in
+  (Z.of_nat (1 + length (terms OR (snd (coeffs OR X y n a b lamb solve)))) < default_cap)%Z ->
+  exists W, anova_func OR X y n a b lamb solve split (Some (trunc_func svdo eigh argsort qr rq ilog2 pow2frac e)) = W /\
+    truncate OR svdo eigh argsort qr rq ilog2 pow2frac pre e default_cap true false true = Ok W /\
+    length W = dimX X /\ chain 1 W 1 /\ shape W = repeat n (dimX X) /\
+    (dist2 OR pre W <= e * e * tnorm2 OR pre)%R.
+Proof. exact anova_func_error. Qed.
